@@ -654,8 +654,8 @@ impl Engine for E3 {
 
     fn required_probes(focus: &str) -> &'static [&'static str] {
         match focus {
-            "C08" => &["clone_dropped_then_emit_on_survivor", "multi_producer_interleaved", "emit_refused_full"],
-            "C09" => &["drop_with_full_queue", "drop_with_empty_queue", "drop_while_worker_stalled", "last_drop_by_producer", "wrapped_buffered_drop_checked"],
+            "C08" => &["clone_dropped_then_emit_on_survivor", "multi_producer_interleaved", "emit_refused_full", "rendezvous_accepted_and_delivered"],
+            "C09" => &["drop_with_full_queue", "drop_with_empty_queue", "drop_while_worker_stalled", "last_drop_by_producer", "wrapped_buffered_drop_checked", "rendezvous_last_drop_terminated"],
             "C06" => &["flush_through_queuing_sink", "wrapped_buffered_runs"],
             "C10" => &["emit_while_worker_stalled", "emit_refused_full", "emit_accepted_at_cap_minus_one"],
             "C11" => &["panic_fired", "consecutive_panics", "panic_on_first_queued", "panic_on_last_queued", "panic_while_stop_pending"],
@@ -673,7 +673,7 @@ impl Engine for E3 {
         // rarely: a large bounded queue (anything that treats large capacities differently, or that
         // leaks capacity, shows only here)
         let big_cap = if matches!(focus, "C10" | "C11" | "C08" | "C09" | "C15") && cfg.chance(1, 100) { Some(*cfg.pick(&[16usize, 32, 64, 128, 256, 1025, 1500, 2049])) } else { None };
-        let cap = match cfg.weighted(&[30, 22, 16, 10, 14, if focus == "C20" { 8 } else { 0 }]) {
+        let cap = match cfg.weighted(&[30, 22, 16, 10, 14, if focus == "C20" { 8 } else if matches!(focus, "C08" | "C09" | "C11" | "C15" | "C16") { 5 } else { 0 }]) {
             0 => None,
             1 => Some(1),
             2 => Some(2),
@@ -1073,10 +1073,15 @@ fn judge(case: &QCase, main: &Option<Obs>, end_tasks: &[TaskInfo], out: &mut Out
         }
     }
     if rendezvous {
-        // capacity 0 is outside every oracle except no-panic
-        return;
+        // capacity 0 (rendezvous): C10 is stated for capacities >= 1 and the occupancy-based
+        // clauses do not apply; delivery, termination, panic survival, counters and the handler do
+        out.probe("rendezvous_judged");
     }
 
+    'c10: {
+        if rendezvous {
+            break 'c10;
+        }
     // "the sink keeps accepting metrics" after a panic is C11's as well
     let panic_c10: Vec<&str> = if panics_fired > 0 { vec!["C10", "C11"] } else { vec!["C10"] };
     // ---- C10: emit never waits, result is a function of queue room, capacity never exceeded ----
@@ -1176,6 +1181,7 @@ fn judge(case: &QCase, main: &Option<Obs>, end_tasks: &[TaskInfo], out: &mut Out
         }
     }
 
+    }
     // ---- blocked callers at the end ----
     for t in &obs.final_tasks {
         if !t.anon && t.id != 0 && t.name != "gatekeeper" {
@@ -1257,6 +1263,9 @@ fn judge(case: &QCase, main: &Option<Obs>, end_tasks: &[TaskInfo], out: &mut Out
         out.violate(&panic_props(&["C08"]), "queue.order", format!("delivery order {:?} differs from acceptance order {:?}", d_strings, a_strings));
     }
     let _ = acked;
+    if rendezvous && missing.is_empty() && !a_strings.is_empty() {
+        out.probe("rendezvous_accepted_and_delivered");
+    }
 
     // ---- C09: after the last drop the worker terminates and the wrapped sink is dropped ----
     if obs.all_dropped {
@@ -1275,6 +1284,9 @@ fn judge(case: &QCase, main: &Option<Obs>, end_tasks: &[TaskInfo], out: &mut Out
             );
         } else if sink_drops != 1 {
             out.violate(&panic_props(&["C09"]), "queue.wrapped-sink-not-dropped", format!("all handles are dropped and the background thread ended, but the wrapped sink was dropped {sink_drops} times (expected once)"));
+        }
+        if rendezvous && workers_alive.is_empty() && sink_drops == 1 {
+            out.probe("rendezvous_last_drop_terminated");
         }
         // probes on the state at the time of the last drop (implementation independent)
         if let Some(ld) = obs.prod.iter().filter(|e| e.what == "drop").max_by_key(|e| e.step_at) {
